@@ -146,6 +146,25 @@ func applyIgnore(bt *gen.Built, lineID int, c ignCase, code string, rng *base.Ra
 	case "trailing-on-closing-line":
 		// the comment trails the line that CLOSES the compound or multi-line statement containing the diagnostic
 		// ("}" / ")" / "} else {"): its scope is that line, not the statement that ends there
+		if c.where == "prev" {
+			// ... or the line that closes the statement BEFORE the diagnostic's statement ("} else {" chains, "}" of a
+			// loop, ")" of a multi-line call): the diagnostic's own statement follows, and must stay
+			var closing *gen.Line
+			for i := len(chain) - 1; i >= 1 && closing == nil; i-- {
+				if pn := sibling(chain[i], -1); pn != nil {
+					if len(pn.Post) > 0 && pn.Post[len(pn.Post)-1].Trail == nil {
+						closing = pn.Post[len(pn.Post)-1]
+					} else if len(pn.Post) == 0 && len(pn.Pre) > 1 && pn.Pre[len(pn.Pre)-1].Trail == nil {
+						closing = pn.Pre[len(pn.Pre)-1]
+					}
+				}
+			}
+			if closing == nil {
+				return false, ""
+			}
+			closing.Trail = ig
+			break
+		}
 		if c.where != "in" {
 			return false, ""
 		}
@@ -230,7 +249,7 @@ func checkC07(replay string) {
 		p  string
 		ws []string
 	}{{"trailing", []string{"in", "prev", "next"}}, {"lead-stmt", []string{"in", "prev", "next"}}, {"lead-compound", []string{"in"}},
-		{"lead-decl", []string{"in", "prev", "next"}}, {"lead-decl-gap", []string{"in", "next"}}, {"file", []string{"in", "other-file"}}, {"package-clause-trailing", []string{"in"}}, {"dangling-end-of-body", []string{"prev"}}, {"trailing-on-closing-line", []string{"in"}}} {
+		{"lead-decl", []string{"in", "prev", "next"}}, {"lead-decl-gap", []string{"in", "next"}}, {"file", []string{"in", "other-file"}}, {"package-clause-trailing", []string{"in"}}, {"dangling-end-of-body", []string{"prev"}}, {"trailing-on-closing-line", []string{"in", "prev"}}} {
 		for _, w := range pl.ws {
 			placements = append(placements, ignCase{placement: pl.p, where: w})
 		}
